@@ -38,9 +38,13 @@ def _name(rng, lo=1, hi=60):
             return s.encode()
 
 
-def _word(rng):
+def _word(rng, braces=False):
     n = rng.choice([rng.randint(1, 8)] * 6 + [rng.randint(9, 39), rng.randint(38, 42), rng.randint(41, 100)])
-    return "".join(rng.choice(WORDCH) for _ in range(n))
+    ch = WORDCH + "{}{}%$\\" if braces else WORDCH
+    w = "".join(rng.choice(ch) for _ in range(n))
+    if braces and rng.random() < 0.3:
+        w = rng.choice(["{{", "}}", "{}", "{{x}}", "$&"]) + w
+    return w
 
 
 def _decl(rng):
@@ -79,10 +83,10 @@ def _decl(rng):
             o = optgen.T(nm, short, rev=rng.random() < 0.5, default=rng.choice([None, 0, 1]), env=env,
                          group=grp, desc=desc)
         elif kind == "o":
-            o = optgen.O(nm, short, default=_word(rng)[:50].encode() if rng.random() < 0.5 else None,
+            o = optgen.O(nm, short, default=_word(rng, True)[:50].encode() if rng.random() < 0.5 else None,
                          env=env, group=grp, desc=desc, metavar=mv)
         else:
-            dv = [_word(rng)[:20].encode() for _ in range(rng.randint(0, 3))] if rng.random() < 0.5 else None
+            dv = [_word(rng, True)[:20].encode() for _ in range(rng.randint(0, 3))] if rng.random() < 0.5 else None
             o = optgen.M(nm, short, default=dv, env=env, group=grp, desc=desc, metavar=mv)
         opts.append(o)
     d = optgen.D(opts, pos=rng.choice([None, None, 2, "inf"]), greedy=False)
